@@ -510,7 +510,7 @@ func (fr *frame) jsonEncode(v value, t types.Type, addressable bool, addr *value
 		case u.Kind() == types.Bool:
 			return &jnode{kind: 'b', leaf: v}
 		case u.Kind() == types.String:
-			if s, ok := v.(string); ok && hasOpaque(s) {
+			if s, ok := v.(string); ok && hasOpaque(s) && !strings.HasPrefix(s, jsonTokenPrefix) {
 				fr.unmodelled("JSON encoding of a string whose text was not computed")
 			}
 			return &jnode{kind: 's', leaf: v}
